@@ -385,6 +385,21 @@ def judge_c10(d):
     return None
 
 
+def judge_c19(d):
+    q, impl, model = d["query"], d["impl"], d["model"]
+    io, mo = impl.split(","), model.split(",")
+    ops = q.split()[2:]
+    for k, (a, b) in enumerate(zip(io, mo)):
+        if a != b:
+            op = ops[k] if k < len(ops) else "?"
+            if op.startswith("W"):
+                return "after %s participant %s polled wait() and got %s, expected %s (a participant registered before the submission must observe it, and only then)" % (" ".join(ops[:k]), op[1:], a, b)
+            if op == "C":
+                return "after %s completion() answered %s, expected %s (it must return exactly when the last registered participant has finished)" % (" ".join(ops[:k]), a, b)
+            return "after %s operation %s answered %s, expected %s" % (" ".join(ops[:k]), op, a, b)
+    return None
+
+
 PROPS = {
     "C03": dict(
         suites=["c03"],
@@ -604,5 +619,22 @@ PROPS = {
                  "HTTP/3 not driven; non-CONNECT requests that connect successfully are answered by the origin (C17)"],
         assumptions=["_icmp with ICMP forwarding not configured, and a multiplexer that fails to be created, are answered 200 and then the "
                      "stream is dropped: the model follows the code; the property only fixes the accepted case"],
+    ),
+    "C19": dict(
+        suites=["c19"],
+        judge=judge_c19,
+        level="proof",
+        exhaustive=True,
+        rule="every sequence of length 6 (thorough 7) over {register (at most 3), wait-poll i, submit, finish i, completion-poll} "
+             "executed on the real Shutdown with futures polled by hand (noop waker), plus 2000 (20000) random histories of length "
+             "8-20; live sessions: 1 and 3 idle HTTP/1.1 connections / HTTP/2 sessions with an open stream through the real Tunnel::listen "
+             "under the paused clock: they must stay up before the submission, wind down after it, and completion() must return",
+        explanation="theorems registered_before_submit_observes, waiting_participant_is_woken, no_submit_no_notification, "
+                    "completion_iff_all_finished, completion_stable, late_registration_gets_no_guard about TT/Model/Shutdown.lean",
+        trusted=["tokio broadcast (capacity 1, lag) and mpsc close semantics as modelled",
+                 "process exit in endpoint/src/main.rs and the std Mutex held across completion().await (a registration arriving while "
+                 "completion() is awaited blocks its thread) are not modelled",
+                 "QUIC close and the three service handlers use the same select pattern as Tunnel::listen (read, not driven here)"],
+        assumptions=[],
     ),
 }
